@@ -1,0 +1,17 @@
+//go:build verif
+
+package querylog
+
+// This file is only compiled with the "verif" build tag.  It adds an accessor
+// used by the external deterministic-simulation harness (engine E5 homeweb,
+// properties C11 and C12) and changes nothing in the shipped build.
+
+// VerifHomesimInitWeb registers the HTTP handlers of ql through its configured
+// registration callback, exactly as [queryLog.Start] does, without spawning
+// the immortal periodicRotate loop.
+func VerifHomesimInitWeb(ql QueryLog) {
+	l := ql.(*queryLog)
+	if l.conf.HTTPRegister != nil {
+		l.initWeb()
+	}
+}
